@@ -204,6 +204,8 @@ def verdict_real(lines, rc):
         is_parallel = False
         timeout = 30
         should_fail = False
+        expected_fail = False
+        expected_exitcode = 0
         fname = ['x']
         suite = ['s']
         project_name = 'p'
@@ -219,7 +221,7 @@ def verdict_real(lines, rc):
     class H:
         def log_subtest(self, *a):
             pass
-    run = mtest.TestRunTAP(T_(), {}, 'name', 30, False)
+    run = mtest.TestRunTAP(T_(), {}, 'name', 30, False, False, False)
     run.start([])
 
     async def gen():
